@@ -202,7 +202,7 @@ def term_value(v):
 
 EXT = {'json': 'json', 'json_list': 'json', 'numpy': 'npy', 'pandas': 'pd', 'series': 'pd', 'generator': 'jsonl',
        'generator_lazy': 'jsonl', 'list_of_numpy': None, 'dir': None, 'continues': None, 'inmemory': None,
-       'generator0': 'jsonl', 'lon0': None, 'dir0': None, 'dirlink': None}
+       'generator0': 'jsonl', 'lon0': None, 'dir0': None, 'dirlink': None, 'inmemory_empty': None}
 
 DTYPES = {'int': int, 'str': str, 'float': float, 'bool': bool, 'list': list, 'dict': dict, 'Path': 'Path'}
 
@@ -533,7 +533,7 @@ class Model:
     def relpath(self, fn, name_mode_config=None):
         ti = self.tasks[fn]
         kind = ti.decl.get('data', 'json')
-        if kind == 'inmemory':
+        if kind in ('inmemory', 'inmemory_empty'):
             return None
         stem = name_mode_config if name_mode_config is not None else self.key(fn)
         ext = EXT[kind]
